@@ -20,6 +20,7 @@ sp = pm.sp
 
 
 def make(z):
+    z = pm.typed(z)
     return {2: sp.Line, 3: sp.QuadraticBezier, 4: sp.CubicBezier}[len(z)](*z)
 
 
